@@ -16,6 +16,16 @@ CLAIMED = {
             'reader copies; no second consuming attempt after a failed binary scope. Necessary conditions for "a skip consumes exactly '
             'that value"; neighbour values themselves are not decided.',
             'CFG path enumeration with event balance (consume vs count) + decision tables over the first-byte domain', '§5 C05'),
+    'C07': ('other',
+            'Abstract interpretation of both MsgPack readers over the exact domain of all 256 first bytes against an oracle written from the '
+            'MessagePack specification: accept sets, length-field and payload widths, signedness, embedded values, ext type-byte offsets, '
+            'classification table, and skip extents for every first byte. Exhaustive over the first-byte domain; payload VALUES are not decided.',
+            'decision tables by abstract interpretation over a finite exact domain, compared with a hand-written spec oracle', '§5 C07'),
+    'C10': ('other',
+            'Sibling cross-check of the duplicated memory/stream implementations: equal decision tables of the two MsgPack readers for all '
+            'methods x 256 first bytes; writer/CSV twins and stream-positioning discipline as they are added. Decides agreement of the copies, '
+            'not behaviour at every chunk alignment.',
+            'twin comparison of decision tables / statement skeletons of sibling implementations', '§5 C10'),
     'C19': ('proof',
             'Exhaustive audit of shared state: every static-storage object of the library is immutable or a tabled registry written only '
             'during static initialisation; save paths never mutate the source; hence every shared access from concurrent operations is a '
